@@ -10,24 +10,11 @@ import (
 	"testing"
 
 	"verif/refs/gcmref"
-	"verif/refs/sm4ref"
 	"verif/vx"
 )
 
 // refBlock adapts sm4ref to cipher.Block so that the standard library's generic GCM (trusted base, cross-checked
 // against gcmref on every base message) can serve as the fast reference for the millions of mutated inputs.
-type refBlock struct{ c *sm4ref.Cipher }
-
-func (b refBlock) BlockSize() int { return 16 }
-func (b refBlock) Encrypt(dst, src []byte) {
-	o := b.c.Encrypt(src)
-	copy(dst, o[:])
-}
-func (b refBlock) Decrypt(dst, src []byte) {
-	o := b.c.Decrypt(src)
-	copy(dst, o[:])
-}
-
 // refOpen decides authenticity. fast may be nil (then gcmref is used).
 func refOpen(fast cipher.AEAD, key, nonce, ct, aad []byte, tag int) ([]byte, bool) {
 	if fast != nil && len(nonce) == fast.NonceSize() {
@@ -35,24 +22,6 @@ func refOpen(fast cipher.AEAD, key, nonce, ct, aad []byte, tag int) ([]byte, boo
 		return pt, err == nil
 	}
 	return gcmref.Open(refCipher(key), nonce, ct, aad, tag)
-}
-
-func fastRef(key []byte, nonceSize, tag int) cipher.AEAD {
-	b := refBlock{sm4ref.New(key)}
-	var a cipher.AEAD
-	var err error
-	switch {
-	case tag == 16:
-		a, err = cipher.NewGCMWithNonceSize(b, nonceSize)
-	case nonceSize == 12:
-		a, err = cipher.NewGCMWithTagSize(b, tag)
-	default:
-		return nil
-	}
-	if err != nil {
-		return nil
-	}
-	return a
 }
 
 type c07case struct {
@@ -120,7 +89,7 @@ func c07eval(r *vx.R, c c07case, fast cipher.AEAD) {
 }
 
 func TestVX_C07(t *testing.T) {
-	r := vx.Begin("C07", gcmPart("open"), "valid messages over pt lengths {0,1,15,16,17,31,32,33,63,64,65,127,128,129,255,256,257,1100} x aad {0,1,16,17,129} x nonce length {1,12,13,16,128} x tag {12..16} (quick: a slice): Open must return the plaintext; then every single-bit flip of ciphertext body, tag, nonce and aad, removal of the last 1..tagSize bytes, removal of the first byte, one appended byte, the tag presented to an AEAD of every other tag size, every prefix shorter than the tag, all-zero tag. Oracle: reference GCM decides (standard library generic GCM over sm4ref, itself checked against gcmref on each base message; gcmref directly where the standard library cannot express the parameters); never panic; nil plaintext on error; no plaintext left in the caller's dst after a rejection. Shape=(key, mutation, lengths, verdict, path)")
+	r := vx.Begin("C07", gcmPart("open"), "valid messages over pt lengths {0,1,15,16,17,31,32,33,63,64,65,127,128,129,255,256,257,1100} x aad {0,1,16,17,129} x nonce length {1,12,13,16,128} x tag {12..16} (quick: a slice), plus large base messages (pt,aad) in {(2048,13),(4096,0),(4097,13),(65537,5),(33,4096),(20,65537),(8192,8192)} [thorough: also (2^20,3),(2^20+17,2^16+1),(16389,0)]: Open must return the plaintext; then every single-bit flip of ciphertext body, tag, nonce and aad (large messages: one bit in each byte at both ends, the middle and next to every kernel-width boundary), removal of the last 1..tagSize bytes, removal of the first byte, one appended byte, the tag presented to an AEAD of every other tag size, every prefix shorter than the tag, all-zero tag. Oracle: reference GCM decides (standard library generic GCM over sm4ref, itself checked against gcmref on each base message; gcmref directly where the standard library cannot express the parameters); never panic; nil plaintext on error; no plaintext left in the caller's dst after a rejection. Shape=(key, mutation, lengths, verdict, path)")
 	defer r.End()
 	selfCheck()
 	if raw, ok := vx.Replay(gcmPart("open")); ok {
@@ -134,6 +103,87 @@ func TestVX_C07(t *testing.T) {
 	aads := []int{0, 1, 16, 17, 129}
 	nls := []int{1, 12, 13, 16, 128}
 	n := 0
+	doBase := func(kn string, pl, al, nl, tag int, sparse bool) {
+		key := keyByName(kn)
+		nonce, pt, aad := fillLen("nonce", nl), fillLen("pt", pl), fillLen("aad", al)
+		ct := gcmref.Seal(refCipher(key), nonce, pt, aad, tag)
+		fast := fastRef(key, nl, tag)
+		if fast != nil {
+			// cross-check the fast reference against gcmref on this base message (harness check)
+			chk := fast.Seal(nil, nonce, pt, aad)
+			if !bytes.Equal(chk, ct) {
+				panic("harness: standard-library GCM over sm4ref disagrees with gcmref")
+			}
+		}
+		emit := func(mut string, no, c, a []byte, tg int, spare bool) {
+			cs := c07case{Key: kn, Nonce: vx.Hex(no), CT: vx.Hex(c), AAD: vx.Hex(a), Tag: tg, Mut: mut, DstSpare: spare}
+			if spare {
+				cs.PlainForLeakChk = vx.Hex(pt)
+			}
+			f := fast
+			if tg != tag || len(no) != nl {
+				f = nil
+			}
+			c07eval(r, cs, f)
+			if !sparse {
+				r.Sample(cs)
+			}
+		}
+		emit("valid", nonce, ct, aad, tag, false)
+		emit("valid-spare", nonce, ct, aad, tag, true)
+		flip := func(b []byte, bit int) []byte {
+			o := append([]byte{}, b...)
+			o[bit/8] ^= 1 << uint(bit%8)
+			return o
+		}
+		body := len(ct) - tag
+		for bit := 0; bit < 8*len(ct); bit++ {
+			region := "flip-body"
+			if bit/8 >= body {
+				region = "flip-tag"
+			}
+			if !th && region == "flip-body" && body > 64 && bit%8 != (bit/8)%8 {
+				continue // quick: one bit per byte for long bodies
+			}
+			if sparse && region == "flip-body" && !(sparseAt(bit/8, body) && bit%8 == (bit/8)%8) {
+				continue // large messages: one bit in each byte next to a kernel-width boundary, the ends and the middle
+			}
+			emit(fmt.Sprintf("%s:%d", region, bit), nonce, flip(ct, bit), aad, tag, bit%16 == 0)
+		}
+		for bit := 0; bit < 8*len(nonce); bit++ {
+			emit(fmt.Sprintf("flip-nonce:%d", bit), flip(nonce, bit), ct, aad, tag, false)
+		}
+		for bit := 0; bit < 8*len(aad); bit++ {
+			if sparse && !(sparseAt(bit/8, len(aad)) && bit%8 == (bit/8)%8) {
+				continue
+			}
+			emit(fmt.Sprintf("flip-aad:%d", bit), nonce, ct, flip(aad, bit), tag, false)
+		}
+		for k := 1; k <= tag && k <= len(ct); k++ {
+			emit(fmt.Sprintf("truncate:%d", k), nonce, ct[:len(ct)-k], aad, tag, k%2 == 0)
+		}
+		if len(ct) > 0 {
+			emit("drop-first", nonce, ct[1:], aad, tag, true)
+		}
+		emit("append-byte", nonce, append(append([]byte{}, ct...), 0), aad, tag, true)
+		emit("append-aad", nonce, ct, append(append([]byte{}, aad...), 0), tag, false)
+		if al > 0 {
+			emit("drop-aad", nonce, ct, aad[:al-1], tag, false)
+		}
+		zt := append([]byte{}, ct...)
+		for i := body; i < len(zt); i++ {
+			zt[i] = 0
+		}
+		emit("zero-tag", nonce, zt, aad, tag, true)
+		for ot := 12; ot <= 16; ot++ {
+			if ot != tag {
+				emit(fmt.Sprintf("other-tagsize:%d", ot), nonce, ct, aad, ot, false)
+			}
+		}
+		for l := 0; l < tag; l++ {
+			emit(fmt.Sprintf("shorter-than-tag:%d", l), nonce, vx.Fill("shortct", l), aad, tag, l%2 == 0)
+		}
+	}
 	for _, pl := range pts {
 		for _, al := range aads {
 			for _, nl := range nls {
@@ -148,80 +198,44 @@ func TestVX_C07(t *testing.T) {
 					if r.Expired() {
 						return
 					}
-					kn := []string{"std", "s1", "zero"}[n%3]
-					key := keyByName(kn)
-					nonce, pt, aad := fillLen("nonce", nl), fillLen("pt", pl), fillLen("aad", al)
-					ct := gcmref.Seal(refCipher(key), nonce, pt, aad, tag)
-					fast := fastRef(key, nl, tag)
-					if fast != nil {
-						// cross-check the fast reference against gcmref on this base message (harness check)
-						chk := fast.Seal(nil, nonce, pt, aad)
-						if !bytes.Equal(chk, ct) {
-							panic("harness: standard-library GCM over sm4ref disagrees with gcmref")
-						}
-					}
-					emit := func(mut string, no, c, a []byte, tg int, spare bool) {
-						cs := c07case{Key: kn, Nonce: vx.Hex(no), CT: vx.Hex(c), AAD: vx.Hex(a), Tag: tg, Mut: mut, DstSpare: spare}
-						if spare {
-							cs.PlainForLeakChk = vx.Hex(pt)
-						}
-						f := fast
-						if tg != tag || len(no) != nl {
-							f = nil
-						}
-						c07eval(r, cs, f)
-						r.Sample(cs)
-					}
-					emit("valid", nonce, ct, aad, tag, false)
-					emit("valid-spare", nonce, ct, aad, tag, true)
-					flip := func(b []byte, bit int) []byte {
-						o := append([]byte{}, b...)
-						o[bit/8] ^= 1 << uint(bit%8)
-						return o
-					}
-					body := len(ct) - tag
-					for bit := 0; bit < 8*len(ct); bit++ {
-						region := "flip-body"
-						if bit/8 >= body {
-							region = "flip-tag"
-						}
-						if !th && region == "flip-body" && body > 64 && bit%8 != (bit/8)%8 {
-							continue // quick: one bit per byte for long bodies
-						}
-						emit(fmt.Sprintf("%s:%d", region, bit), nonce, flip(ct, bit), aad, tag, bit%16 == 0)
-					}
-					for bit := 0; bit < 8*len(nonce); bit++ {
-						emit(fmt.Sprintf("flip-nonce:%d", bit), flip(nonce, bit), ct, aad, tag, false)
-					}
-					for bit := 0; bit < 8*len(aad); bit++ {
-						emit(fmt.Sprintf("flip-aad:%d", bit), nonce, ct, flip(aad, bit), tag, false)
-					}
-					for k := 1; k <= tag && k <= len(ct); k++ {
-						emit(fmt.Sprintf("truncate:%d", k), nonce, ct[:len(ct)-k], aad, tag, k%2 == 0)
-					}
-					if len(ct) > 0 {
-						emit("drop-first", nonce, ct[1:], aad, tag, true)
-					}
-					emit("append-byte", nonce, append(append([]byte{}, ct...), 0), aad, tag, true)
-					emit("append-aad", nonce, ct, append(append([]byte{}, aad...), 0), tag, false)
-					if al > 0 {
-						emit("drop-aad", nonce, ct, aad[:al-1], tag, false)
-					}
-					zt := append([]byte{}, ct...)
-					for i := body; i < len(zt); i++ {
-						zt[i] = 0
-					}
-					emit("zero-tag", nonce, zt, aad, tag, true)
-					for ot := 12; ot <= 16; ot++ {
-						if ot != tag {
-							emit(fmt.Sprintf("other-tagsize:%d", ot), nonce, ct, aad, ot, false)
-						}
-					}
-					for l := 0; l < tag; l++ {
-						emit(fmt.Sprintf("shorter-than-tag:%d", l), nonce, vx.Fill("shortct", l), aad, tag, l%2 == 0)
-					}
+					doBase([]string{"std", "s1", "zero"}[n%3], pl, al, nl, tag, false)
 				}
 			}
 		}
 	}
+	// large messages (sparse single-bit flips: see sparseAt)
+	type big struct{ pl, al, nl, tag int }
+	bigs := []big{{2048, 13, 12, 16}, {4096, 0, 12, 16}, {4097, 13, 16, 16}, {65537, 5, 12, 12}, {33, 4096, 12, 16}, {20, 65537, 16, 16}, {8192, 8192, 12, 14}}
+	if th {
+		bigs = append(bigs, big{1 << 20, 3, 12, 16}, big{1<<20 + 17, 1<<16 + 1, 13, 16}, big{16384 + 5, 0, 128, 13})
+	}
+	for _, b := range bigs {
+		n++
+		if !vx.MineIdx(n) {
+			continue
+		}
+		if r.Expired() {
+			return
+		}
+		doBase("s5", b.pl, b.al, b.nl, b.tag, true)
+	}
+}
+
+// sparseAt selects the byte positions of a long buffer that get a bit flip: both ends, the middle, and the bytes on
+// either side of every multiple of 256 up to 1024 and of the last multiple of 16, 64 and 256.
+func sparseAt(i, n int) bool {
+	if i < 2 || i >= n-2 || i == n/2 {
+		return true
+	}
+	for _, m := range []int{16, 64, 128, 256, 512, 768, 1024} {
+		if i == m || i == m-1 {
+			return true
+		}
+	}
+	for _, w := range []int{16, 64, 256} {
+		if last := n / w * w; i == last || i == last-1 {
+			return true
+		}
+	}
+	return false
 }
